@@ -7,6 +7,7 @@ package main
 
 import (
 	"go/ast"
+	"strings"
 	"go/types"
 )
 
@@ -89,8 +90,13 @@ func (ex *Exec) shouldInline(fi *FuncInfo, c *ast.CallExpr) bool {
 		}
 	}
 	sig := fi.Obj.Type().(*types.Signature)
-	if !hasFuncParam(sig) || sig.Variadic() {
+	if sig.Variadic() {
 		return false
+	}
+	if !hasFuncParam(sig) {
+		// a small helper without contract (straight-line code, no loop, no recursion): executing it in place keeps the
+		// caller's proof independent of how its body is cut into helper functions
+		return ex.isSmallHelper(fi)
 	}
 	for _, a := range c.Args {
 		switch x := unparen(a).(type) {
@@ -180,4 +186,28 @@ func (ex *Exec) callClosure(c *ast.CallExpr, cl *closure, args []Term) []Term {
 	}
 	ex.block(cl.lit.Body.List)
 	return ex.popFrame(f)
+}
+
+func (ex *Exec) isSmallHelper(fi *FuncInfo) bool {
+	if fi.Body() == nil || fi.Lit != nil || strings.HasSuffix(fi.File, "/peg.go") {
+		return false
+	}
+	if r := ex.P.Reach[fi.Name]; r != nil && r[fi.Name] {
+		return false
+	}
+	if fi.Name == ex.F.Name {
+		return false
+	}
+	n, ok := 0, true
+	ast.Inspect(fi.Body(), func(nd ast.Node) bool {
+		switch nd.(type) {
+		case *ast.ForStmt, *ast.RangeStmt, *ast.DeferStmt, *ast.GoStmt, *ast.SelectStmt, *ast.FuncLit, *ast.LabeledStmt:
+			ok = false
+		}
+		if _, isStmt := nd.(ast.Stmt); isStmt {
+			n++
+		}
+		return ok
+	})
+	return ok && n <= 14
 }
